@@ -452,7 +452,12 @@ func BatchFunc[T any](
 				out.err = err
 				return
 			}
-			c <- item
+			select {
+			case c <- item:
+			case <-bgCtx.Done():
+				// The batching goroutine may already be gone, so don't wait for it.
+				return
+			}
 		}
 	}()
 
